@@ -108,6 +108,46 @@ func waitOrDump(wg *sync.WaitGroup, d time.Duration, state string, funcs ...stri
 	return false, "slow: not finished after 40 waits, no goroutine parked in the watched state"
 }
 
+// waitOrDumpProgress is waitOrDump for waits on LOCKS: a goroutine parked on a mutex is normal under contention, so a
+// dump showing one proves nothing by itself. "Blocked" needs, in addition, that the work counter did not move during a
+// whole wait of d (nobody is getting anywhere) on two consecutive rounds.
+func waitOrDumpProgress(wg *sync.WaitGroup, d time.Duration, progress func() int64, state string, funcs ...string) (blocked bool, dump string) {
+	done := make(chan struct{})
+	go func() { wg.Wait(); close(done) }()
+	last, still := progress(), 0
+	for round := 0; round < 60; round++ {
+		select {
+		case <-done:
+			return false, ""
+		case <-time.After(d):
+		}
+		now := progress()
+		if now != last {
+			last, still = now, 0
+			continue
+		}
+		still++
+		if still < 2 {
+			continue
+		}
+		buf := make([]byte, 1<<20)
+		n := runtime.Stack(buf, true)
+		for _, g := range strings.Split(string(buf[:n]), "\n\n") {
+			if !strings.Contains(strings.SplitN(g, "\n", 2)[0], state) {
+				continue
+			}
+			for _, f := range funcs {
+				if strings.Contains(g, f) {
+					poisoned = true
+					return true, g
+				}
+			}
+		}
+	}
+	poisoned = true
+	return false, "slow: not finished after 60 waits, no goroutine parked in the watched state without progress"
+}
+
 var lastDump string
 
 func runPool(raw Sx) (Sx, Sx) {
